@@ -265,6 +265,28 @@ def site_in(clsname, fn, stmts, guard):
         return isinstance(n, ast.Call) and isinstance(n.func, ast.Attribute) and n.func.attr in compute
 
     kc = first_index(stmts, is_compute)
+
+    def infer_before(k):
+        """how omitted time arrays are filled in by the statements before statement k"""
+        found_inf = ""
+        for st in stmts[:k]:
+            if not isinstance(st, ast.If) or st.orelse:
+                continue
+            t = " ".join(ast.unparse(st.test).split())
+            for b in st.body:
+                if not isinstance(b, ast.Assign):
+                    continue
+                txt = " ".join(ast.unparse(b).split())
+                call = "infer_and_create_time_arrays_if_not_given(obs, cm_hist, cm_future, time_obs, time_cm_hist, time_cm_future)"
+                if (t == "time_obs is None or time_cm_hist is None or time_cm_future is None"
+                        and txt in ("(time_obs, time_cm_hist, time_cm_future) = " + call, "time_obs, time_cm_hist, time_cm_future = " + call)):
+                    found_inf = "all3-if-any-none"
+                elif t == "time_cm_future is None" and txt == "time_cm_future = create_array_of_consecutive_dates(cm_future.size)":
+                    found_inf = "future-if-none"
+                elif "time_" in txt.split("=")[0]:
+                    return "?" + txt[:60]  # some other rebinding of a time array before the check
+        return found_inf
+
     for k, st in enumerate(stmts):
         kind = None
         if (isinstance(st, ast.Expr) and isinstance(st.value, ast.Call) and ast.unparse(st.value.func) == "check_time_information_and_raise_error"
@@ -274,7 +296,7 @@ def site_in(clsname, fn, stmts, guard):
               and len(st.body) == 1 and isinstance(st.body[0], ast.Raise) and ast.unparse(st.body[0].exc).startswith("ValueError(")):
             kind = "future"
         if kind:
-            found.append(f"⟨{lstr(clsname)}, {lstr(fn.name)}, {lstr(guard)}, {lstr(kind)}, {lbool(kc is None or k < kc)}⟩")
+            found.append(f"⟨{lstr(clsname)}, {lstr(fn.name)}, {lstr(guard)}, {lstr(kind)}, {lbool(kc is None or k < kc)}, {lstr(infer_before(k))}⟩")
     return found
 
 
@@ -304,7 +326,7 @@ def time_sites(repo):
             for fn in c.body:
                 if isinstance(fn, ast.FunctionDef) and (c.name, fn.name) not in seen:
                     if any(isinstance(n, ast.Call) and ast.unparse(n.func) == "check_time_information_and_raise_error" for n in ast.walk(fn)):
-                        out.append(f"⟨{lstr(c.name)}, {lstr(fn.name)}, \"?\", \"all3\", false⟩")
+                        out.append(f"⟨{lstr(c.name)}, {lstr(fn.name)}, \"?\", \"all3\", false, \"?\"⟩")
     return out
 
 
@@ -347,6 +369,57 @@ def translate_check_time(repo):
     sig = " ".join(f"({p} : Int)" for p in params)
     return (f"/-- generated from `{UTILS}`: `check_time_information_and_raise_error` (arguments = the `.size` of each array) -/\n"
             f"def check_time_information {sig} : Except String Unit :=\n  if {c} then (.error {lstr(cls)}) else (.ok ())\n")
+
+
+def translate_infer_time(repo):
+    """`if <None-tests>: t = create_array_of_consecutive_dates(s.size)` ... `return time_obs, time_cm_hist, time_cm_future`
+    -> Lean over sizes, time sizes as `Option Int` (none = not given)"""
+    tree = ast.parse(open(os.path.join(repo, UTILS)).read())
+    fn = next((n for n in tree.body if isinstance(n, ast.FunctionDef) and n.name == "infer_and_create_time_arrays_if_not_given"), None)
+    if fn is None:
+        raise Unrecognised("infer_and_create_time_arrays_if_not_given not found")
+    params = [a.arg for a in fn.args.args]
+    series, times = ["obs", "cm_hist", "cm_future"], ["time_obs", "time_cm_hist", "time_cm_future"]
+    if params != series + times:
+        raise Unrecognised(f"parameters {params}")
+
+    def cond(e):
+        if isinstance(e, ast.BoolOp):
+            op = " || " if isinstance(e.op, ast.Or) else " && "
+            return "(" + op.join(cond(v) for v in e.values) + ")"
+        if isinstance(e, ast.UnaryOp) and isinstance(e.op, ast.Not):
+            return f"(!{cond(e.operand)})"
+        if (isinstance(e, ast.Compare) and len(e.ops) == 1 and isinstance(e.comparators[0], ast.Constant) and e.comparators[0].value is None
+                and isinstance(e.left, ast.Name) and e.left.id in times):
+            if isinstance(e.ops[0], ast.Is):
+                return f"({e.left.id}).isNone"
+            if isinstance(e.ops[0], ast.IsNot):
+                return f"({e.left.id}).isSome"
+        raise Unrecognised(f"condition {ast.unparse(e)[:60]}")
+
+    body = []
+    returned = False
+    for k, st in enumerate(strip_doc(fn.body)):
+        if isinstance(st, ast.If) and not st.orelse:
+            body.append(f"  let c_{k} : Bool := {cond(st.test)}")
+            for b in st.body:
+                ok = (isinstance(b, ast.Assign) and len(b.targets) == 1 and isinstance(b.targets[0], ast.Name) and b.targets[0].id in times
+                      and isinstance(b.value, ast.Call) and ast.unparse(b.value.func) == "create_array_of_consecutive_dates" and len(b.value.args) == 1
+                      and not b.value.keywords and isinstance(b.value.args[0], ast.Attribute) and b.value.args[0].attr == "size"
+                      and isinstance(b.value.args[0].value, ast.Name) and b.value.args[0].value.id in series)
+                if not ok:
+                    raise Unrecognised(f"statement {ast.unparse(b)[:60]}")
+                body.append(f"  let {b.targets[0].id} : Option Int := if c_{k} then some {b.value.args[0].value.id} else {b.targets[0].id}")
+        elif isinstance(st, ast.Return) and " ".join(ast.unparse(st.value).split()) in ("(time_obs, time_cm_hist, time_cm_future)", "time_obs, time_cm_hist, time_cm_future"):
+            body.append("  (time_obs, time_cm_hist, time_cm_future)")
+            returned = True
+        else:
+            raise Unrecognised(f"statement {ast.unparse(st)[:60]}")
+    if not returned:
+        raise Unrecognised("no `return time_obs, time_cm_hist, time_cm_future`")
+    sig = " ".join(f"({p} : Int)" for p in series) + " " + " ".join(f"({p} : Option Int)" for p in times)
+    return (f"/-- generated from `{UTILS}`: `infer_and_create_time_arrays_if_not_given` (series as their `.size`, time arrays as the size "
+            f"they were given with, `none` = not given) -/\ndef infer_time {sig} : Option Int × Option Int × Option Int :=\n" + "\n".join(body) + "\n")
 
 
 # ------------------------------------------------------------------ group entry point
@@ -403,5 +476,9 @@ def generate(repo):
         out.append(translate_check_time(repo))
     except (Unrecognised, OSError, SyntaxError) as ex:
         errors.append(f"untranslatable:check_time_information_and_raise_error: {ex}")
+    try:
+        out.append(translate_infer_time(repo))
+    except (Unrecognised, OSError, SyntaxError) as ex:
+        errors.append(f"untranslatable:infer_and_create_time_arrays_if_not_given: {ex}")
     out.append("end Gen.Contract")
     return "\n".join(out) + "\n", errors
